@@ -52,12 +52,15 @@
   * "time proportional to the input" is NOT a Lean theorem.  What is proved is termination with an
     explicit measure and a linear bound on the ITERATIONS of the record loop and of the scan loop;
     the work inside one iteration (eleven sub-parsers, each of which may read ahead over
-    continuation lines and restore) is not counted.
+    continuation lines and restore) is not counted here (Gts/Props/C07Fuel.lean counts it and finds
+    it super-linear).
   * stack exhaustion of the Go run time on deeply nested `complement(` and the memory held by
     leaked `Push` frames are below the level of the model; they are covered by the depth sweep of
     the harness (recorded in the evidence), not by a theorem.
   * the loops of the qualifier and feature-table readers (`qualifiers`, `tableMore`,
-    `literalMore`) and `refSubfields` have no fuel theorem.
+    `literalMore`), `refSubfields` and every other fuelled loop have their fuel theorems in
+    Gts/Props/C07Fuel.lean, with `genbankParser_fuel_free` (every fuel of the reader at once) and
+    the cost-counting reading that REFUTES linear time (`steps_linear_full_refuted`).
   * the FASTA scanner is covered on its modelled fragment (`fasta_scan_nopanic`); K7C is about
     content, not panics.
 -/
